@@ -36,47 +36,70 @@ AUDIT_FILE = "PyYetiVerif/Audit/C12.lean"
 THEOREMS = [
     "PyYetiVerif.C12." + n
     for n in (
-        "table_rows_ok fixed_branch_width fixed_branch_width_rat fixed_branch_width_tables fixed_branch_accuracy_partial "
+        "table_rows_ok fixed_branch_width fixed_branch_width_rat fixed_branch_width_tables "
+        "sscanf_parses_field sscanf_parses_recognised fixed_branch_accuracy fixed_precision_maximal "
+        "sci_consts_ok sci_width_accuracy sci_width small_branch_pos small_branch_neg last_branches tables_format_ok format_float_total "
         "carry_guard_sound int_field_roundtrip blank_field_roundtrip line_roundtrip "
-        "card_line_roundtrip_partial"
+        "card_line_roundtrip_partial str_field_roundtrip card_fields_ok card_roundtrip_small card_roundtrip_large card_roundtrip_comma card_fixed_comma_agree"
     ).split()
 ]
 TRUSTED = [
     "Model/PyFloat.lean as the meaning of CPython '%.*f', '%.*e', float(str), round(x) on finite doubles "
-    "(re-measured on every run by the `pyfloat` correspondence stream)",
+    "(re-measured on every run by the `pyfloat` correspondence stream; since the extension the parts the "
+    "theorems use are also *proved*: eParts_spec for '%.*e', rheDiv_err for '%.*f', toBits_mant for float() on "
+    "a mantissa)",
     "translator harness/translate/c12_nasfloat.py (ast only; cross-checked by the exact string correspondence)",
-    "correspondence harness harness/props/c12.py (exact comparison of fields, card text and rdcards lists)",
+    "correspondence harness harness/props/c12.py (exact comparison of fields, card text and rdcards lists; "
+    "the harness regex _FLD_RE as an independent reading of the emitted-field grammar)",
     "rdcards is modelled for return_var='list', no INCLUDE following, no kept comments, no tabs",
+    "the free-field writer `commaText` of the card theorems is a specification (pyyeti has no comma writer); the "
+    "harness writes the same form (_comma_text) and the reader is compared on it exactly",
 ]
 RULE = (
     "doubles: every decade 1e-323..1e308, both signs, a fixed mantissa grid (1, 4.99…, 5, 9.9…9 with 1..16 nines) "
     "with nextafter neighbours, seeded random mantissas, +-3 ulp neighbours of every branch bound of the "
     "translated tables and of every value that rounds to the next power of ten, zeros, subnormals, max double; "
-    "a case is one double compared on format_float8/16 and format_double16 (exact strings); non-trivial = "
-    "non-zero; distinct by bit pattern.  cards: seeded random cards of 0..60 fields over blank/str/int/float "
-    "with blank runs and trailing blanks, three writers, single- and multi-card files, comma forms; "
-    "distinct by the card text"
+    "a case is one double compared on format_float8/16 and format_double16 (stream format) and on "
+    "_format_scientific8/16 (stream sci), exact strings; every distinct emitted field is split by the Lean "
+    "recogniser fieldOf? and by the harness regex and the decimal it denotes is rounded and compared with "
+    "nas_sscanf (stream grammar); non-trivial = non-zero; distinct by bit pattern.  cards: seeded random cards "
+    "of 0..60 fields over blank/str/int/float with blank runs and trailing blanks, three writers, single- and "
+    "multi-card files, comma forms incl. first lines of every length 72..80 and beyond; distinct by the card text"
 )
 ASSUMPTIONS = [
     "string fields are Nastran names (letter first, alphanumeric, at most the field width) that nas_sscanf does "
     "not read as a number (INF/NAN/INFINITY are numbers to the reader and outside the quantifier)",
     "integer fields fit the field width",
-    "accuracy is claimed for 1e-300 <= |x| <= 1e300 (beyond, rounding to the field's digits can overflow to inf)",
+    "accuracy is claimed for 1e-300 <= |x| <= 1e300 (beyond, rounding to the field's digits can overflow to inf); "
+    "the Lean theorems cover all fractions with 1e-999 <= |x| < 1e999 (exponents of at most three digits)",
 ]
 PARTIAL = (
-    "proved at full strength: table_rows_ok (decide on the regenerated tables), fixed_branch_width (all "
-    "fractions / all rationals, including the rounding carry), carry_guard_sound, int/blank field round trip, "
-    "line_roundtrip (one physical line, any width). Partial: fixed_branch_accuracy_partial proves the half-unit "
-    "bound of the rounding step only (that strip/replace/nas_sscanf preserve the value of the printed digits is "
-    "checked by the exact correspondence and the oracle); card_line_roundtrip_partial covers small-field cards of "
-    "at most 8 fields before the reader's right-strip. Not proved (correspondence + oracle only): sci_width / "
-    "sci_accuracy / double16 for the scientific fall-backs and the small-magnitude mixed branch, "
-    "sscanf_parses_field for float fields, continuation lines with blank padding, large-field line structure, "
-    "card-name matching and the comma form of card_roundtrip"
+    "proved at full strength (all fractions that are zero or have 1e-999 <= |x| < 1e999, so every finite double): "
+    "sscanf_parses_field / sscanf_parses_recognised (grammar of emitted fields, d->e and sign-as-exponent "
+    "rewriting); format_float_total (format_float8/16 as a whole through the if-chain dispatch: exactly W "
+    "characters, a field of the grammar, read back as a real; side conditions tables_format_ok by decide on the "
+    "regenerated tables); per branch the exact text and the accuracy: fixed_branch_width*, fixed_branch_accuracy "
+    "(end to end through strip / replace / nas_sscanf, |field-x| <= 1/2 10^-p), fixed_precision_maximal, "
+    "sci_width_accuracy + sci_width + sci_consts_ok for _format_scientific8/16 and format_double16 (two-stage "
+    "bound (1/2 10^-P + 1/2 10^-q) 10^E), small_branch_pos, small_branch_neg (incl. the double below the literal "
+    "5e-7 / 5e-15 where float(field1) == float('-0.') is false), last_branches, table_rows_ok, "
+    "carry_guard_sound; cards: card_roundtrip_small / card_roundtrip_large (any number of continuation lines, "
+    "blank padding, trailing blanks, the * in column 73, the even-line padding), card_roundtrip_comma (lines of "
+    "any length) and card_fixed_comma_agree, int/blank/str field round trips, card_fields_ok.  Still partial: "
+    "(1) format_float_total states width, grammar and read-back; the accuracy bounds are per branch and are not "
+    "re-assembled into one statement over the dispatch; (2) that the mixed branch picks the more precise "
+    "alternative (float(field1) == float(field2)) is not proved - each alternative has its own proved bound; "
+    "(3) a comma-form writer does not exist in pyyeti: card_roundtrip_comma is about the specification text "
+    "commaText; (4) card-name matching is proved for one-card files (multi-card files, name prefixes and foreign "
+    "lines are correspondence only); card_line_roundtrip_partial is kept for the record (superseded by "
+    "card_roundtrip_small)"
 )
 MANIFEST = {
     "level_text": "proof",
-    "level_note": "Lean theorems over the generated decade tables and the card model; exact string correspondence",
+    "level_note": "Lean theorems per branch (exact text, width, read-back, accuracy over all fractions) and for "
+                  "cards (8/16/comma forms, any number of lines), format_float8/16 as a whole for width, grammar and "
+                  "read-back; multi-card files and the choice between the two alternatives of the mixed "
+                  "branch are tied by exact correspondence",
     "technique": "Lean 4 model + ast translator (NasFloatTables) + differential correspondence",
 }
 
@@ -261,6 +284,51 @@ def _fmt3(bulk, x):
     return "|".join(out)
 
 
+_FLD_RE = None
+
+
+def _py_field(bulk, s):
+    """harness-side reading of the emitted-field grammar (independent of the Lean recogniser):
+    ' '* [-] digit* . digit* [[D](+|-)digit+], at least one mantissa digit, exponent <= 5000;
+    the last component is the bit pattern of what nas_sscanf returns for the string."""
+    global _FLD_RE
+    import re
+
+    if _FLD_RE is None:
+        _FLD_RE = re.compile(r" *(-?)([0-9]*)\.([0-9]*)(?:(D?)([+-])([0-9]+))?\Z")
+    m = _FLD_RE.match(s)
+    if not m or not (m.group(2) or m.group(3)):
+        return "none"
+    sg, ip, fp, d, es, ed = m.groups()
+    if es and int(ed) > 5000:
+        return "none"
+    v = bulk.nas_sscanf(s)
+    bits = "f%d" % _bits(v) if isinstance(v, float) else repr(v)
+    if es:
+        return "%d|%s|%s|%d|%s|%s|%s" % (1 if sg else 0, ip, fp, 1 if d else 0, es, ed, bits[1:] if bits[0] == "f" else bits)
+    return "%d|%s|%s|-|-||%s" % (1 if sg else 0, ip, fp, bits[1:] if bits[0] == "f" else bits)
+
+
+def _sci2(bulk, x):
+    out = []
+    for f in (bulk._format_scientific8, bulk._format_scientific16):
+        try:
+            out.append(f(x))
+        except Exception as e:  # noqa: BLE001
+            out.append("exc:" + type(e).__name__)
+    return "|".join(out)
+
+
+def _sci_branch(W, s, x):
+    """branch label of a scientific field: exponent digits, sign, carry form `10.`"""
+    t = s.strip()
+    if t in ("0.", "0.D+0"):
+        return "sci%d:zero" % W
+    i = max(t.rfind("+"), t.rfind("-"))
+    L = len(t) - i - 1
+    return "sci%d:%s:L%d%s" % (W, "neg" if x < 0 else "pos", L, ":carry" if t.lstrip("-").startswith("10.") else "")
+
+
 # ------------------------------------------------------------------------------------ cards
 
 _LET = "ABCDEFGHIJKLMNOPQRSTUVWXYZ"
@@ -418,6 +486,56 @@ def _comma_text(bulk, card, rng=None):
     return "\n".join(lines) + "\n"
 
 
+def _card_with_comma_first_line(ctx, bulk, L):
+    """a small-field card (continued on a second line) whose FIRST line in comma form
+    `NAME,t1,...,t8` has exactly L characters (72 <= L <= 80: legal free field, beyond the 72
+    columns of fixed fields); tokens are full-width ints, names and reals."""
+    rng = ctx.rng
+    for _ in range(200):
+        nl = rng.randint(max(1, L - 72), 8)
+        need = L - 8 - nl  # total token length
+        lens = [8] * 8
+        extra = 64 - need
+        while extra > 0:
+            i = rng.randrange(8)
+            if lens[i] > 1:
+                lens[i] -= 1
+                extra -= 1
+        fields = []
+        for k in lens:
+            r = rng.random()
+            if r < 0.35:
+                n = rng.randint(10 ** (k - 1), 10 ** k - 1) if k > 1 else rng.randint(0, 9)
+                fields.append(["i", n])
+            elif r < 0.5 and k >= 2:
+                n = rng.randint(10 ** (k - 2), 10 ** (k - 1) - 1) if k > 2 else rng.randint(1, 9)
+                fields.append(["i", -n])
+            elif r < 0.7:
+                while True:
+                    t = rng.choice(_LET) + "".join(rng.choice(_ALNUM) for _ in range(k - 1))
+                    if not _is_number_to_reader(bulk, t):
+                        break
+                fields.append(["s", t])
+            else:
+                # a real whose stripped 8-wide field has k characters
+                found = None
+                for _ in range(60):
+                    x = rng.choice([1, -1]) * round(rng.uniform(1, 10), max(0, k - 3)) * 10.0 ** rng.randint(-2, 5)
+                    if len(bulk.format_float8(x).strip()) == k:
+                        found = x
+                        break
+                fields.append(["f", _bits(found)] if found is not None else ["i", 10 ** (k - 1) if k > 1 else 7])
+        name = _rand_name(rng, nl, False)[:nl].ljust(nl, "X")
+        if _is_number_to_reader(bulk, name):
+            continue
+        card = {"writer": "wtcard8", "name": name,
+                "fields": fields + [["i", rng.randint(1, 99)], ["b"], ["f", _bits(rng.choice([1.5, -2.25e-5, 3e10]))]]}
+        ct = _comma_text(bulk, card)
+        if ct is not None and len(ct.split("\n")[0]) == L:
+            return card
+    return None
+
+
 # ------------------------------------------------------------------------------------ correspondence
 
 
@@ -454,6 +572,55 @@ def correspondence(ctx):
         ctx.extra["unreached_branches"] = [n for n in need if not ctx.hist.get(n)]
     else:
         ctx.require_branches(need)
+
+    # --- stream `sci`: _format_scientific8/16 and format_double16 on every value -----------
+    rep = _ask(ctx, ["sci %d" % _bits(x) for x, _ in vals])
+    nbad = 0
+    emitted = {}
+    for (x, origin), r in zip(vals, rep):
+        got = _sci2(bulk, x)
+        ctx.case(("sci", _bits(x)), nontrivial=(x != 0.0), branch="sci")
+        if "exc:" not in got:
+            g8, g16 = got.split("|")
+            ctx.count(_sci_branch(8, g8, x))
+            ctx.count(_sci_branch(16, g16, x))
+            emitted.setdefault(g8, x)
+            emitted.setdefault(g16, x)
+        if got != r:
+            nbad += 1
+            if nbad <= 100:
+                ctx.disagree("sci", {"kind": "number", "bits": _bits(x), "repr": repr(x), "fmt": "sci"}, got, r)
+    need = ["sci%d:%s:L%d" % (W, sg, L) for W in (8, 16) for sg in ("pos", "neg") for L in (1, 2, 3)]
+    need += ["sci%d:%s:L%d:carry" % (W, sg, L) for W in (8, 16) for sg in ("pos", "neg") for L in (1, 2)]
+    need += ["sci8:zero", "sci16:zero"]
+    if not ctx.broken:
+        ctx.require_branches(need)
+
+    # --- stream `grammar`: every emitted field is in the grammar of Spec/NasFloatField, the Lean
+    # recogniser and the harness regex split it alike, and the decimal it denotes rounds to what
+    # nas_sscanf returns -------------------------------------------------------------------
+    for x, _ in vals[:: max(1, len(vals) // ctx.pick(40000, 400000))]:
+        for t in _fmt3(bulk, x).split("|"):
+            emitted.setdefault(t, x)
+    emitted = {t: x for t, x in emitted.items() if not t.startswith("exc:")}
+    others = ["1.5-3", "-1.235+7", ".5-3", "-.5", "1.D+0", "  10.+10", "1.2D-300", "1.5e-3", "1.5E3", "1.5d3", "15",
+              " 1.5 ", "1.5-", "1.5+-3", ".", "-.", "1.5D3", "1.5-3x", "+1.5-3", "1.5-5001", "1.5-5000", "0.", "0.D+0",
+              "1..5", "", "   ", "GRID", "1.5 -3", "--1.", "1.-0", "10.+0"]
+    strs = list(emitted) + others
+    rep = _ask(ctx, ["fld " + _hex(t) for t in strs])
+    for t, r in zip(strs, rep):
+        got = _py_field(bulk, t)
+        kind = "none" if got == "none" else {"-": "plain", "0": "exp", "1": "D"}[got.split("|")[3]]
+        ctx.case(("fld", t), branch="grammar:" + kind)
+        if t in emitted and got == "none":
+            ctx.disagree("grammar", {"kind": "number", "bits": _bits(emitted[t]), "repr": repr(emitted[t]),
+                                     "field": t}, "emitted field outside the grammar", r)
+        elif got != r:
+            inp = {"kind": "scan", "string": t}
+            if t in emitted:
+                inp = {"kind": "number", "bits": _bits(emitted[t]), "repr": repr(emitted[t]), "field": t}
+            ctx.disagree("grammar", inp, got, r)
+    ctx.require_branches(["grammar:plain", "grammar:exp", "grammar:D", "grammar:none"])
 
     # --- stream `pyfloat`: the CPython conversions themselves ----------------------------
     rng = ctx.rng
@@ -578,6 +745,19 @@ def correspondence(ctx):
             if rng.random() < 0.2:
                 ct = ct.replace(",", ", ")
             files.append((ct, c["name"], "comma"))
+            n0 = len(ct.split("\n")[0])
+            ctx.count("rdcards:comma:first-line-%s" % ("<=72" if n0 <= 72 else "73..80" if n0 <= 80 else ">80"))
+    # free-field cards whose first line is 72 .. 80 characters long (legal; a reader that cuts the
+    # line at column 72 like the fixed-field reader loses the last fields)
+    for L in range(72, 81):
+        for _ in range(ctx.pick(6, 40)):
+            c = _card_with_comma_first_line(ctx, bulk, L)
+            if c is None:
+                continue
+            ct = _comma_text(bulk, c, rng)
+            files.append((ct, c["name"], "comma"))
+            files.append((_write(bulk, c), c["name"], "single"))
+            ctx.count("rdcards:comma:first-line-%d" % L)
     req = []
     for text, nm, kind in files:
         for keep in (0, 1):
@@ -593,13 +773,17 @@ def correspondence(ctx):
                              got, rep[j])
             j += 1
     ctx.require_branches(["cards:wtcard8:3+-lines", "cards:wtcard16:3+-lines", "cards:wtcard16d:3+-lines",
-                          "cards:value-error", "rdcards:single", "rdcards:multi", "rdcards:comma"])
+                          "cards:value-error", "rdcards:single", "rdcards:multi", "rdcards:comma"] +
+                         ["rdcards:comma:first-line-%d" % L for L in range(72, 81)] +
+                         ["rdcards:comma:first-line-73..80", "rdcards:comma:first-line->80"])
 
 
 # ------------------------------------------------------------------------------------ oracle
 
 _FMT = {"f8": ("format_float8", 8, False), "f16": ("format_float16", 16, False),
-        "d16": ("format_double16", 16, True)}
+        "d16": ("format_double16", 16, True),
+        # the scientific helpers themselves (anchored mechanism; only the scientific form is available)
+        "s8": ("_format_scientific8", 8, None), "s16": ("_format_scientific16", 16, None)}
 
 
 def _best_unit(x, W, dstyle):
@@ -612,14 +796,14 @@ def _best_unit(x, W, dstyle):
     q = W - sg - 3 - len(str(abs(e))) - (1 if dstyle else 0)
     if q >= 0:
         units.append(Fraction(10) ** (e - q))
-    if not dstyle:
+    if dstyle is False:
         p = W - sg - kint - 1
         if p >= 0:
             units.append(Fraction(10) ** (-p))
     return min(units) if units else None
 
 
-def _number_failures(bulk, x, which=("f8", "f16", "d16")):
+def _number_failures(bulk, x, which=("f8", "f16", "d16", "s8", "s16")):
     out = []
     for key in which:
         fname, W, dstyle = _FMT[key]
@@ -627,18 +811,18 @@ def _number_failures(bulk, x, which=("f8", "f16", "d16")):
         try:
             s = getattr(bulk, fname)(x)
         except Exception as e:  # noqa: BLE001
-            out.append(("%s-raises-%s" % (fname.replace("_", "-"), type(e).__name__), "%s raises" % fname,
+            out.append(("%s-raises-%s" % (fname.strip("_").replace("_", "-"), type(e).__name__), "%s raises" % fname,
                         inp, repr(e), "a %d-character field" % W))
             continue
         if len(s) != W:
-            fam = "%s-width-%d" % (fname.replace("_", "-"), len(s))
+            fam = "%s-width-%d" % (fname.strip("_").replace("_", "-"), len(s))
             if key == "f16" and -1e14 < x <= -99999999999999.5:
                 fam = FAM_F7
             out.append((fam, "%s returns %d characters" % (fname, len(s)), inp, s, "exactly %d characters" % W))
             continue
         v = bulk.nas_sscanf(s)
         if not isinstance(v, float):
-            fam = "%s-field-not-read-as-float" % fname.replace("_", "-")
+            fam = "%s-field-not-read-as-float" % fname.strip("_").replace("_", "-")
             if x > 0 and isinstance(v, int) and "." not in s:
                 fam = FAM_CARRY
             out.append((fam, "%s field %r is read back as %r, not as a real" % (fname, s, v), inp,
@@ -646,19 +830,19 @@ def _number_failures(bulk, x, which=("f8", "f16", "d16")):
             continue
         if x == 0.0:
             if v != 0.0:
-                out.append(("%s-zero" % fname.replace("_", "-"), "zero is not written as zero", inp, s, "0."))
+                out.append(("%s-zero" % fname.strip("_").replace("_", "-"), "zero is not written as zero", inp, s, "0."))
             continue
         if not (1e-300 <= abs(x) <= 1e300):
             continue
         unit = _best_unit(x, W, dstyle)
         if unit is None or math.isinf(v):
-            out.append(("%s-unrepresentable" % fname.replace("_", "-"), "no representation", inp, s, "finite"))
+            out.append(("%s-unrepresentable" % fname.strip("_").replace("_", "-"), "no representation", inp, s, "finite"))
             continue
         err = abs(Fraction(v) - Fraction(x))
         tol = unit / 2 * Fraction(101, 100) + 2 * Fraction(math.ulp(x))
         if err > tol:
             e = Decimal(x).adjusted()
-            fam = "%s-precision-%s-decade-%s" % (fname.replace("_", "-"), "neg" if x < 0 else "pos",
+            fam = "%s-precision-%s-decade-%s" % (fname.strip("_").replace("_", "-"), "neg" if x < 0 else "pos",
                                                   e if -4 <= e <= W else ("small" if e < 0 else "large"))
             out.append((fam, "%s loses precision the field width allows" % fname, inp,
                         {"field": s, "error": float(err)}, {"max_error": float(tol), "last_digit": float(unit)}))
@@ -812,6 +996,11 @@ def search(ctx, hints):
         {"writer": "wtcard16d", "name": "D*", "fields": [["f", _bits(-99999999999999.94)], ["b"], ["f", _bits(9999999.5)]]},
         {"writer": "wtcard8", "name": "GRID", "fields": [["i", 1], ["b"], ["f", _bits(9999999.5)], ["f", _bits(-999999.5)]]},
     ]
+    for L in range(72, 81):
+        for _ in range(ctx.pick(4, 20)):
+            c = _card_with_comma_first_line(ctx, bulk, L)
+            if c is not None:
+                fixed_cards.append(c)
     for c in fixed_cards:
         _report(ctx, _card_failures(bulk, c))
         ctx.count("oracle-cards")
